@@ -5,25 +5,6 @@ From Verif.C18 Require Import Gen_Quote Model ProofsBase ProofsStr.
 Import ListNotations.
 Open Scope N_scope.
 
-Ltac leb_solve :=
-  repeat match goal with
-  | |- context [?a <=? ?b] =>
-    first [ replace (a <=? b) with true by (symmetry; apply N.leb_le; lia)
-          | replace (a <=? b) with false by (symmetry; apply N.leb_gt; lia) ]
-  end.
-Ltac eqb_solve :=
-  repeat match goal with
-  | |- context [?a =? ?b] =>
-    first [ replace (a =? b) with true by (symmetry; apply N.eqb_eq; lia)
-          | replace (a =? b) with false by (symmetry; apply N.eqb_neq; lia) ]
-  end.
-Ltac ltb_solve :=
-  repeat match goal with
-  | |- context [?a <? ?b] =>
-    first [ replace (a <? b) with true by (symmetry; apply N.ltb_lt; lia)
-          | replace (a <? b) with false by (symmetry; apply N.ltb_ge; lia) ]
-  end.
-
 Section Bytes.
 Variable U : uni.
 
@@ -94,12 +75,13 @@ Proof.
   intros a [H|H]; repeat split; lia.
 Qed.
 
-Lemma ql_bytes_esc1_ok : forall b, b < 256 -> b <> 92 ->
+Lemma ql_bytes_esc1_ok : forall b, b < 256 ->
   chunkb_ok 39 (ql_bytes_esc1 b) /\
   forall rest, unqb 0 (ql_bytes_esc1 b ++ rest) = ocons b (unqb 0 rest).
 Proof.
-  intros b Hb H92. unfold ql_bytes_esc1, g_qlb_class, g_qlb_escapes, in_ranges, in_range.
+  intros b Hb. unfold ql_bytes_esc1, g_qlb_class, g_qlb_escapes, in_ranges, in_range.
   cbn [existsb fst snd assoc].
+  destruct (N.eq_dec b 92) as [->|H92]; [split; [apply ckb_esc; constructor|reflexivity]|].
   destruct (N.eq_dec b 39) as [->|H39]; [split; [apply ckb_esc; constructor|reflexivity]|].
   destruct (N.eq_dec b 9) as [->|H9]; [split; [apply ckb_esc; constructor|reflexivity]|].
   destruct (N.eq_dec b 10) as [->|H10]; [split; [apply ckb_esc; constructor|reflexivity]|].
@@ -111,7 +93,8 @@ Proof.
   { leb_solve. eqb_solve. cbn [andb orb]. split.
     - apply ckb_esc. apply hexdigits_plainb.
     - intros rest. cbn [app]. now apply unqb_hex2. }
-  destruct (N.lt_ge_cases b 39); leb_solve; cbn [andb orb]; (split;
+  destruct (N.lt_ge_cases b 39); destruct (N.lt_ge_cases b 92); try (exfalso; lia);
+    leb_solve; cbn [andb orb]; (split;
     [apply ckb_plain; repeat split; auto; lia | intros rest; cbn [app]; now apply unqb_plain]).
 Qed.
 
@@ -119,16 +102,16 @@ Lemma ql_lex1_bin : forall s, ql_lex1 U (98 :: 39 :: s) = lex_bin false 39 s.
 Proof. reflexivity. Qed.
 
 Theorem p_ql_visit_bytes : forall bs k,
-  Forall (fun b => b < 256) bs -> mem 92 bs = false ->
+  Forall (fun b => b < 256) bs ->
   ql_lex1 U (ql_visit_bytes bs ++ k) = LexOk (TBin bs) k.
 Proof.
-  intros bs k Hb H92. unfold ql_visit_bytes. rewrite <- !app_comm_cons, <- app_assoc. cbn [app].
+  intros bs k Hb. unfold ql_visit_bytes. rewrite <- !app_comm_cons, <- app_assoc. cbn [app].
   rewrite ql_lex1_bin. unfold lex_bin.
-  rewrite Forall_forall in Hb. apply mem_false_iff in H92.
+  rewrite Forall_forall in Hb.
   rewrite scan_bin_body; try lia.
   - rewrite unqb_body; [reflexivity|].
-    intros c rest Hc. apply ql_bytes_esc1_ok; auto. intro; subst; auto.
-  - intros c Hc. apply ql_bytes_esc1_ok; auto. intro; subst; auto.
+    intros c rest Hc. apply ql_bytes_esc1_ok; auto.
+  - intros c Hc. apply ql_bytes_esc1_ok; auto.
 Qed.
 
 End Bytes.
